@@ -1,8 +1,9 @@
 """c02 — generated Flow code against the flow semantics; see gen_common.py."""
 import coq_cases
 import gen_common
+import topo_common
 
-DEP_FILES = ["FlowSemModel.v", "FlowOpModel.v", "FlowOpProofs.v", "FlowBridge.v", "FlowAdequacy.v", "FlowComplete.v", "FlowListing.v", "SchedFlowCompose.v"]
+DEP_FILES = ["FlowSemModel.v", "FlowOpModel.v", "FlowOpProofs.v", "FlowBridge.v", "FlowAdequacy.v", "FlowComplete.v", "FlowListing.v", "SchedFlowCompose.v", "TopoModel.v", "TopoProofs.v"]
 PID = "C02"
 
 
@@ -11,4 +12,5 @@ def run(chk):
     s = gen_common.apply(chk, PID)
     if s.get("coqcases"):
         coq_cases.check(chk, [tuple(c) for c in s["coqcases"]])
+    topo_common.apply(chk, 300 if chk.tier == "quick" else 20000)
     chk.assumptions += gen_common.ASSUMPTIONS
